@@ -5,7 +5,8 @@
 (*                                                                         *)
 (* One record per call:                                                    *)
 (*   op     "set" "get" "del" "in" "len" "iter" "getd" "clear" "sync"      *)
-(*          "close" "create" "fromdict" "open" "mutsrc"                    *)
+(*          "close" "create" "fromdict" "open" "mutsrc" "occupy" (the      *)
+(*          harness put a foreign file under the path; k = 0 empty, 1 not) *)
 (*   k, v   key / value names (v = -1: a value that is not bytes; for      *)
 (*          mutsrc v = 0: the key is deleted from the caller's dict)       *)
 (*   df     getd: 0 = get(key), -2 = get(key, default)                     *)
@@ -53,6 +54,7 @@ Act ==
       [] Ev.op = "fromdict" -> FromDict(ToMap(Ev.m), Ev.out)
       [] Ev.op = "open"     -> Open(Ev.out)
       [] Ev.op = "mutsrc"   -> Ev.out = "ok" /\ MutSrc(Ev.k, Ev.v)
+      [] Ev.op = "occupy"   -> Ev.out = "ok" /\ Occupy(Ev.k)
       [] OTHER -> FALSE
 
 (* what the public API shows after the call is the model's dictionary *)
@@ -66,7 +68,9 @@ Observed ==
 (* naming the clause that failed; evaluated only when Step is not enabled *)
 Pre ==
     IF Ev.op \in HandleOps \cup {"close"} THEN Handle
+    ELSE IF Ev.op = "open" THEN ~opened /\ ~foreign
     ELSE IF Ev.op \in CtorOps THEN ~opened
+    ELSE IF Ev.op = "occupy" THEN st = "none" /\ ~exists
     ELSE IF Ev.op = "mutsrc" THEN linked /\ Ev.v # src[Ev.k]
     ELSE FALSE
 
@@ -77,7 +81,7 @@ Outs ==
       [] Ev.op = "close"                -> CloseOuts
       [] Ev.op \in {"create", "fromdict"} -> CreateOuts
       [] Ev.op = "open"                 -> OpenFileOuts
-      [] Ev.op = "mutsrc"               -> {"ok"}
+      [] Ev.op \in {"mutsrc", "occupy"}  -> {"ok"}
       [] OTHER -> {}
 
 ResOK ==
